@@ -35,6 +35,11 @@ let eval (input : Sx.t) (obs : Sx.t) : Sx.t list * bool * bool * string =
         List.assoc "absent" (List.map (fun x -> (Sx.tag x, Sx.args x)) l) =
           (let ds = sx_str (match dstr with Some d -> d | None -> []) and di = sx_z (match dint with Some d -> d | None -> Z0) in
            [ds; di; sx_bool (match dbool with Some d -> d | None -> false); ds; ds; di])
+        (* ... and a present value is returned converted by the base-10 / boolean rule, zero on
+           malformed text: Escape.parse_int / query_int / query_bool are that rule (theorems C18_default_rule_present and _absent) *)
+        && List.for_all (fun m -> let tag = Sx.tag m in
+             not (List.mem tag ["query"; "trim"; "unescape"; "bool"; "int"; "int64"; "param"; "paramint"; "paramint64"; "noparam"; "nocookie"])
+             || List.assoc tag (List.map (fun x -> (Sx.tag x, Sx.args x)) l) = Sx.args m) model
       with Not_found -> false)) in
   let odd = List.exists (fun ch -> let x = int_of_n ch in x < 32 || x > 126 || x = 59 || x = 44 || x = 34 || x = 92 || x = 32 || x = 37 || x = 43) c in
   (model, spec, odd, if q = [] then "query-empty-or-absent" else "query-present")
